@@ -231,6 +231,7 @@ class Interp:
         self.symbolic_loops = symbolic_loops      # a loop over an iterable of unknown length is executed once with symbolic targets
         self.enter = set(enter)
         self.call_hook, self.attr_hook = call_hook, attr_hook
+        self.array_rows = False         # set by a rule: enumerate over symbolic arrays binds the k-th rows (T[k]) instead of fresh symbols
         self.func_hook = func_hook      # func_hook(name, args, kwargs): the value of a call of a program function that is not entered (the call event is recorded first)
         self.known_functions = known_functions
         self.path = None
@@ -431,8 +432,8 @@ class Interp:
                         except (_Break, _Continue):
                             pass
                         return
-                if en is not None and len(en[0]) == 1 and not en[1] and isinstance(st.target, ast.Tuple) and len(st.target.elts) == 2 and isinstance(st.target.elts[0], ast.Name):
-                    # for k, row in enumerate(T) / for k, (a, b) in enumerate(zip(A, B)) over arrays of unknown length: the k-th rows
+                if self.array_rows and en is not None and len(en[0]) == 1 and not en[1] and isinstance(st.target, ast.Tuple) and len(st.target.elts) == 2 and isinstance(st.target.elts[0], ast.Name):
+                    # (opt-in) for k, row in enumerate(T) / for k, (a, b) in enumerate(zip(A, B)) over arrays of unknown length: the k-th rows
                     X = en[0][0]
                     zc = call_of(X, 'zip') if isinstance(X, Sym) else None
                     srcs = list(zc[0]) if zc is not None and not zc[1] else ([X] if isinstance(X, Sym) and not (X.struct and X.struct[0] == 'comp') else None)
